@@ -120,7 +120,9 @@ def _case(draw):
                 jobs[j] = {"file": k, "prog": prog, "scan": draw(progs.scans(t2)), "via": draw(st.sampled_from(["CsvPath", "CsvPaths", "CsvPaths"]))}
     return {"files": files, "jobs": jobs, "warm": True if tiny else draw(st.booleans()), "repeat": draw(st.integers(0, njobs - 1)), "rewrite": rewrite,
             "delimiter": draw(st.sampled_from([",", ",", ";", "|"])),
-            "policy": draw(st.sampled_from(POLICIES))}
+            "policy": draw(st.sampled_from(POLICIES)),
+            # the constructor argument skip_blank_lines=False, given to CsvPath() and to CsvPaths() alike
+            "keep_blank": draw(st.sampled_from([False, False, False, False, True]))}
 
 
 def strategy(tier):
@@ -130,23 +132,23 @@ def strategy(tier):
 KEYS = ("lines", "variables", "printouts", "errors", "is_valid", "scan_count", "match_count", "headers", "raised")
 
 
-def run_job(job, rel, cps=None, delimiter=","):
+def run_job(job, rel, cps=None, delimiter=",", keep_blank=False):
     text = common.text_of(job["prog"], rel, job["scan"])
     if job["via"] == "CsvPaths":
-        cps = cps or real.new_csvpaths(delimiter=delimiter)
+        cps = cps or real.new_csvpaths(delimiter=delimiter, skip_blank_lines=not keep_blank)
         r = real.run_path(text, csvpaths=cps)
     else:
-        r = real.run_path(text, delimiter=delimiter)
+        r = real.run_path(text, delimiter=delimiter, skip_blank_lines=not keep_blank)
     out = {k: r[k] for k in KEYS}
     if out["raised"]:
         out["raised"] = {"raised": out["raised"]["raised"]}
     return json.loads(json.dumps(out, default=str))
 
 
-def twin(job, records, fname, delimiter=",", policy=None):
+def twin(job, records, fname, delimiter=",", policy=None, keep_blank=False):
     """run one job alone in a fresh process with an empty cache"""
     # the twin is always created directly (CsvPath()): the property also says the creation route does not matter
-    payload = json.dumps({"job": dict(job, via="CsvPath"), "records": records, "fname": fname, "delimiter": delimiter, "policy": policy})
+    payload = json.dumps({"job": dict(job, via="CsvPath"), "records": records, "fname": fname, "delimiter": delimiter, "policy": policy, "keep_blank": keep_blank})
     env = dict(os.environ)
     env.pop("CSVPATH_CONFIG_PATH", None)
     r = subprocess.run([sys.executable, "-m", "vf.props.c19"], input=payload, capture_output=True, text=True,
@@ -177,7 +179,10 @@ def run_case(case, sb):
         warm_cache(files, sb, dl)
         labels.append("warm-cache")
     problems = []
-    cps = real.new_csvpaths(delimiter=dl)
+    kb = bool(case.get("keep_blank"))
+    if kb:
+        labels.append("skip_blank_lines=False")
+    cps = real.new_csvpaths(delimiter=dl, skip_blank_lines=not kb)
     twins = {}
     current = {k: f["records"] for k, f in enumerate(files)}
     used = {}
@@ -203,10 +208,10 @@ def run_case(case, sb):
         used[k] = used.get(k, 0) + 1
         shared = shared or used[k] >= 2
         via_cps = via_cps or (job["via"] == "CsvPaths" and (case["warm"] or used[k] >= 2))
-        got = run_job(job, rels[k], cps if job["via"] == "CsvPaths" else None, dl)
+        got = run_job(job, rels[k], cps if job["via"] == "CsvPaths" else None, dl, kb)
         key = core.case_hash({"job": dict(job, via="CsvPath"), "records": current[k]})
         if key not in twins:
-            twins[key] = twin(job, current[k], files[k]["name"], dl, policy)
+            twins[key] = twin(job, current[k], files[k]["name"], dl, policy, kb)
         exp = twins[key]
         if got["errors"]:
             labels.append("run-time-errors")
@@ -216,7 +221,7 @@ def run_case(case, sb):
                              "records": current[k], "differs": diff})
             break
         if j == case["repeat"]:
-            again = run_job(job, rels[k], cps if job["via"] == "CsvPaths" else None, dl)
+            again = run_job(job, rels[k], cps if job["via"] == "CsvPaths" else None, dl, kb)
             if again != got:
                 diff = {f: {"first": got[f], "second": again[f]} for f in KEYS if got[f] != again[f]}
                 problems.append({"job": j, "repeat_differs": diff})
@@ -251,7 +256,7 @@ def _main():
         assert_repo_code()
         sb.reset()
         rel = sb.write_csv(payload["fname"], payload["records"], delimiter=payload.get("delimiter", ","))
-        out = run_job(payload["job"], rel, None, payload.get("delimiter", ","))
+        out = run_job(payload["job"], rel, None, payload.get("delimiter", ","), bool(payload.get("keep_blank")))
         print(json.dumps(out))
     finally:
         sb.close()
